@@ -53,6 +53,47 @@ chk("C12",
     "bounded exhaustive enumeration of accepted inputs with a well-formedness invariant on every accepted value",
     "5/C12")
 
+chk("C06",
+    "A recipe family (7 unordered constructors over atoms and nested items in every insertion sequence incl. duplicates, 3 symmetric statements over all operand pairs, nested symmetric statements, ordered/image/asymmetric controls, same name under different atom kinds, parsed texts) is built on the real code under EVERY distinguishable combination of hash-iteration orders of its sets (stateless DFS over the environment's key choices through the SeededState hook); then ALL pairs of builds are compared: (a==b), (b==a) must equal (canon(a)=canon(b)); reflexivity; derived == of Sentence/Task/Narsese wrappers.",
+    "Hook replaces only the source of the SipHash key of TermSetType; sets of <=3 elements nested <=2; every k! order realised (else exhaustive=false is reported).",
+    "exhaustive exploration of hash-order environments (controlled nondeterminism) x recipes on the real code, all-pairs comparison against a canonical-form oracle",
+    "5/C06")
+chk("C07",
+    "Same builds as C06; for every pair of builds with equal canonical form: equal finish() under DefaultHasher, SipHash with 3 fixed keys and FNV-1a, HashSet{a}.contains(b), HashMap{a->1}.get(b), re-insertion keeps one entry.",
+    "As C06.",
+    "exhaustive exploration of hash-order environments x recipes, all canon-equal pairs",
+    "5/C07")
+chk("C08",
+    "Explicit-state search (stateright BFS, run twice, counts compared) over the real reused ParseState: state = what mid_result still holds after an input, transition = one real parse_multi loop body (hook MultiParser::step) over a 26-input alphabet per format (complete/partial/failing inputs), to a fixpoint; every transition compared with a fresh parse; every explored history replayed through the public parse_multi (traces_validated_against_impl); hook-free sweep of all sequences of length<=2 (3); parse_chars vs parse; lexical parse sequences on the shared static formats.",
+    "Merging on mid_result is sound because reset_to overwrites env/len_env/head and format is constant; alphabet of 26 inputs per format.",
+    "explicit-state model checking (stateright BFS to fixpoint) of the real parser object + replay of all explored traces against the public API",
+    "5/C08")
+chk("C09",
+    "For every value of a term universe and a sentence/task cover, the reference token list under every spacing at <=1 deviation from 'no spaces' and from 'spaces everywhere' (thorough: <=2 spaces anywhere), through the enum parser and lexical parse+fold x 3 formats; tab/newline/U+3000/U+00A0 for the lexical pipeline and parse_chars(strip_whitespace()); literal macro invocations.",
+    "Token boundaries are those of the harness' reference formatter.",
+    "deviation-bounded exhaustive enumeration of spacings of well-formed token lists against both real pipelines",
+    "5/C09")
+chk("C11",
+    "Every ASCII string printed by the enum formatter (C01 universe) and the lexical formatter (C02 universe, >=1 component) is interpreted with the PEG grammar read from README.md (own pest-semantics interpreter), the kind and the derived tree are compared with the ASCII lexical parser's result; FORMAT_ASCII (enum and lexical) is compared with the OpenNARS lexicon entry by entry.",
+    "Grammar read as task~EOI | sentence~EOI | term~EOI; Unicode classes from the regex crate; lexicon table is a literal in the harness.",
+    "bounded exhaustive enumeration of formatter outputs against an independent reference grammar interpreter",
+    "5/C11")
+chk("C13",
+    "All tuples of arity 0..4 (5 thorough) over a 21-value float alphabet (infinities, NaNs, -0.0, subnormals, 1-ulp, 1+ulp, ...) through the fallible and panicking constructors of Truth and Budget and all accessors; is_valid/try_validate/validate/root/zero/one on every float.",
+    "f64 only (the only EvidentNumber instance); oracle 0<=x<=1.",
+    "bounded exhaustive enumeration of float tuples against a reference predicate",
+    "5/C13")
+chk("C16",
+    "Every value of the C01 universe plus stand-alone items is rendered to Typst on the real code: no panic, trimmed, no doubled whitespace; one table rendering -> canonical class over the whole universe detects collisions; unordered families are rendered under every distinguishable hash-iteration order and canonically equal recipes must have equal rendering sets.",
+    "Injectivity is decided within the enumerated universe only.",
+    "bounded exhaustive enumeration of values x hash-order environments, collision table against canonical forms",
+    "5/C16")
+chk("C17",
+    "Explicit-state search (stateright BFS, run twice) from one term per constructor: every transition applies one real set_atom_name (16 strings) or push_components (7 lists) call to the real term (rebuilt by replaying the history) and the reference model to its canonical form; outcome, post-state, get_atom_name and unchanged-on-Err are checked on every transition; depth 3 (4 thorough).",
+    "Deduplication on the canonical form; reference model is 60 lines in the harness.",
+    "explicit-state model checking (stateright BFS, depth-bounded) of the real term under its mutators against a reference model",
+    "5/C17")
+
 ALL = ["C%02d" % i for i in range(1, 18)]
 NOT_YET = {}
 manifest = {
